@@ -58,7 +58,8 @@ Fixpoint next (p : para) (last : str) (ls : list str) : rres :=
         | Some (k, v) =>
             let key := trim_space k in
             let value := trim_space v in
-            if mem key (values p) then RErr
+            if starts hash key then RErr
+            else if mem key (values p) then RErr
             else next {| order := order p ++ [key]; values := values p ++ [(key, value)] |} key rest
         end
   end.
@@ -253,7 +254,7 @@ Proof.
   assert (H3 : starts tab X = false).
   { rewrite HX. cbn [starts]. destruct (ceq_spec c tab); [subst; discriminate Hlead|reflexivity]. }
   cbn [next]. rewrite B, H1, H2, H3, C. cbn [orb].
-  rewrite (trim_space_id (c :: k')) by assumption. rewrite trim_space_lead_sp, Hm. reflexivity.
+  rewrite (trim_space_id (c :: k')) by assumption. cbn [starts]. rewrite Hhash. rewrite trim_space_lead_sp, Hm. reflexivity.
 Qed.
 
 (* ---------- what the continuation lines add up to ---------- *)
